@@ -9,6 +9,9 @@ BANNED_READ = {"std::io::Read::read", "std::io::Read::read_vectored", "std::io::
 
 def run(ctx):
     _run(ctx)
+    ctx.delegate("C03", ["C03.layout", "C03.size"], "C13.layout",
+                 "a record is returned only when all the bytes its declared size covers were read: both legal layouts are decoded in "
+                 "full, whatever the counts", floor=30)
     ctx.delegate("C07", ["C07.arith", "C07.panics", "C07.progress"], "C13.nopanic",
                  "reading a truncated or failing source never panics: no unchecked arithmetic, index or unwrap on the reader graph, "
                  "also after the first error", floor=40)
